@@ -24,24 +24,11 @@ type concReport struct {
 func concCase(stream string, load func() (*gonnx.Model, error), desc any, inputsFor func(g, k int) []NamedT, G, K, L int) *Case {
 	c := &Case{Kind: "concurrent", Stream: stream, P: map[string]any{"model": desc, "goroutines": G, "runs_each": K, "loaders": L}}
 	c.Impl = guard(func() *Result {
-		// sequential baseline on a fresh model
-		base, err := load()
+		shared, err := load()
 		if err != nil {
 			r := errResult(err)
 			r.Extra = "load"
 			return r
-		}
-		want := make([][]string, G)
-		for g := 0; g < G; g++ {
-			want[g] = make([]string, K)
-			for k := 0; k < K; k++ {
-				r, _ := runModel(base, base.OutputNames(), inputsFor(g, k))
-				want[g][k] = fmt.Sprintf("%s|%v", r.Status, flatten(r.Outs))
-			}
-		}
-		shared, err := load()
-		if err != nil {
-			return errResult(err)
 		}
 		got := make([][]string, G)
 		var wg sync.WaitGroup
@@ -73,6 +60,22 @@ func concCase(stream string, load func() (*gonnx.Model, error), desc any, inputs
 		}
 		close(start)
 		wg.Wait()
+		// sequential baseline on a fresh model - computed AFTER the concurrent phase, so that the very first
+		// use of any lazily initialised package-level state in this process happens under concurrency
+		base, err := load()
+		if err != nil {
+			r := errResult(err)
+			r.Extra = "load"
+			return r
+		}
+		want := make([][]string, G)
+		for g := 0; g < G; g++ {
+			want[g] = make([]string, K)
+			for k := 0; k < K; k++ {
+				r, _ := runModel(base, base.OutputNames(), inputsFor(g, k))
+				want[g][k] = fmt.Sprintf("%s|%v", r.Status, flatten(r.Outs))
+			}
+		}
 		rep := concReport{Goroutines: G, RunsEach: K, Loaders: L}
 		for g := 0; g < G; g++ {
 			for k := 0; k < K; k++ {
